@@ -94,5 +94,7 @@ Theorem filters_partial : forall c pol evs p,
             (c_modules c = true -> e_lam e = false /\ e_mc e <> MSkip).
 Proof.
   intros c pol evs p CONST HP. destruct (prompts_at_accepted_events c pol evs p CONST HP) as (e & N & EQ & OK).
-  exists e. split; [exact N|]. rewrite EQ; simpl. repeat split; auto; unfold ok_attrs in OK; intro M; rewrite M in OK; tauto.
+  exists e. split; [exact N|]. rewrite EQ; simpl.
+  split; [reflexivity|]. split; [reflexivity|]. split; [reflexivity|].
+  unfold ok_attrs in OK. split; intro M; rewrite M in OK; exact OK.
 Qed.
